@@ -740,7 +740,7 @@ pub fn worker_c15(ctx: &WorkerCtx) -> WorkerOut {
 }
 pub fn worker_c16(ctx: &WorkerCtx) -> WorkerOut {
     let q = ctx.quick();
-    let sp = space(q, 3);
+    let sp = space(q, if q { 3 } else { 4 });
     let delays = [0, 2 * US, 5 * US];
     let mut sets = machine_sets(&sp.lib, &|g| g.kind == 'b', &|g| matches!(g.kind, 'b' | 'p' | 'r') || !q && g.kind == 'x', q);
     let tri = bypass_interaction_triples(&sp.lib);
@@ -773,7 +773,7 @@ pub fn worker_c16(ctx: &WorkerCtx) -> WorkerOut {
 }
 pub fn worker_c17(ctx: &WorkerCtx) -> WorkerOut {
     let q = ctx.quick();
-    let sp = space(q, 3);
+    let sp = space(q, if q { 3 } else { 4 });
     let delays = [0, 2 * US, 5 * US];
     let mut sets = machine_sets(&sp.lib, &|g| matches!(g.kind, 'p' | 'b' | 'r' | 'c'), &|g| matches!(g.kind, 'p' | 'b' | 'r' | 'c' | 'x'), q);
     // internal-timer gadgets at the lower machine index next to action-timer gadgets (several kinds of action in one trigger batch)
@@ -803,7 +803,7 @@ pub fn worker_c17(ctx: &WorkerCtx) -> WorkerOut {
 }
 pub fn worker_c18(ctx: &WorkerCtx) -> WorkerOut {
     let q = ctx.quick();
-    let sp = space(q, 3);
+    let sp = space(q, if q { 3 } else { 4 });
     let delays = [0, 2 * US, 5 * US];
     let mut sets = machine_sets(&sp.lib, &|g| g.kind == 't' || g.name.starts_with("cancel") && g.name.contains("own1"), &|g| matches!(g.kind, 't' | 'c') || g.kind == 'p' && g.name.contains("to1"), q);
     // a timer expiring while outgoing traffic is blocked (the blocking expiry competes with the timer in pick_next),
@@ -1084,53 +1084,59 @@ pub fn worker_c19(ctx: &WorkerCtx) -> WorkerOut {
     }
     sets.extend(with_q);
     let basep = product(&sp, sets, &delays, &[0, 1], &[true, false], &[0]);
-    let base: Vec<Job> = (0..basep.len()).map(|i| basep.job(i)).collect();
     let pps_menu: [Option<usize>; 8] = [None, Some(1), Some(2), Some(10), Some(1000), Some(u32::MAX as usize), Some(1usize << 32), Some(usize::MAX)];
-    let mut jobs = vec![];
-    for (i, j) in base.iter().enumerate() {
+    // lazily decoded: base index i x slot (0 = grid point, 1..=3 = huge stop bounds on every 211th, 4 = plain run with a pps limit on every 4th)
+    const SLOTS: usize = 5;
+    let nbase = basep.len();
+    let job_at = |idx: usize| -> Option<Job> {
+        let (i, slot) = (idx / SLOTS, idx % SLOTS);
+        let j = basep.job(i);
         if q && (sp.traces[j.trace as usize].len() == 3 && i % 2 != 0 || i % 5 >= 2) {
-            continue;
+            return None;
         }
         if sp.traces[j.trace as usize].len() > 4 && i % 3 != 0 {
-            continue;
+            return None;
         }
-        // rotate through the stop / filter / pps / seed grid; every grid point is hit by many systems
-        let g = i % 96;
-        let mut k = j.clone();
-        k.pps = pps_menu[g % 8];
-        k.only_client = (g / 8) % 2 == 1;
-        k.only_net = (g / 16) % 2 == 1;
-        k.max_len = [0usize, 1, 5][(g / 32) % 3];
-        k.max_iter = [1usize, 7, 120][(i / 96) % 3];
-        k.seed = [0u64, 1, u64::MAX, 7][(i / 7) % 4];
-        k.style = (i / 11 % 4) as u8;
-        jobs.push(k);
-        if i % 211 == 0 {
-            // bounds far above anything the run can reach are bounds like any other (not allocation sizes)
-            for big in [usize::MAX, 1usize << 48, 1usize << 33] {
-                let mut u = j.clone();
-                u.max_len = big;
+        match slot {
+            0 => {
+                // rotate through the stop / filter / pps / seed grid; every grid point is hit by many systems
+                let g = i % 96;
+                let mut k = j;
+                k.pps = pps_menu[g % 8];
+                k.only_client = (g / 8) % 2 == 1;
+                k.only_net = (g / 16) % 2 == 1;
+                k.max_len = [0usize, 1, 5][(g / 32) % 3];
+                k.max_iter = [1usize, 7, 120][(i / 96) % 3];
+                k.seed = [0u64, 1, u64::MAX, 7][(i / 7) % 4];
+                k.style = (i / 11 % 4) as u8;
+                Some(k)
+            }
+            1..=3 if i % 211 == 0 => {
+                // bounds far above anything the run can reach are bounds like any other (not allocation sizes)
+                let mut u = j;
+                u.max_len = [usize::MAX, 1usize << 48, 1usize << 33][slot - 1];
                 u.max_iter = 120;
                 u.cont = false;
-                jobs.push(u);
+                Some(u)
             }
+            4 if i % 4 == 0 => {
+                // the plain unfiltered run with an explicit pps limit
+                let mut u = j;
+                u.pps = pps_menu[(i / 4) % 8];
+                u.seed = [0u64, u64::MAX, 1][i % 3];
+                Some(u)
+            }
+            _ => None,
         }
-        if i % 4 == 0 {
-            // the plain unfiltered run with an explicit pps limit
-            let mut u = j.clone();
-            u.pps = pps_menu[(i / 4) % 8];
-            u.seed = [0u64, u64::MAX, 1][i % 3];
-            jobs.push(u);
-        }
-    }
+    };
     let deep = c19_deep_systems(q);
-    let nj = jobs.len();
+    let nj = nbase * SLOTS;
     let mut b = bounds(&sp, nj + deep.len(), &delays);
     b["systems_with_thousands_of_pending_aggregate_delays_on_a_2MiB_stack"] = json!(deep.len());
     let corp = corpus_systems(&sp, ctx.seed.wrapping_add(1019), if q { 3000 } else { 60000 }, &delays);
     b["sampled_systems_of_generated_machines"] = json!(corp.len());
     let nd = nj + deep.len();
-    let res = run_jobs("C19", nd + corp.len(), &|i| if i < nj { Some(sp.build(&jobs[i])) } else if i < nd { Some(deep[i - nj].clone()) } else { Some(corp[i - nd].clone()) }, &judge_c19, ctx);
+    let res = run_jobs("C19", nd + corp.len(), &|i| if i < nj { job_at(i).map(|j| sp.build(&j)) } else if i < nd { Some(deep[i - nj].clone()) } else { Some(corp[i - nd].clone()) }, &judge_c19, ctx);
     finish("C19", res, "one job = one closed system x packets-per-second limit {none,1,2,10,1000,2^32-1,2^32,usize::MAX} x max_trace_length {0,1,5, and 2^33, 2^48, usize::MAX on every 211th system} x max_sim_iterations {1,7,120} x both continue settings x all four filter combinations x seeds {0, 1, 7, u64::MAX} (client seed s, server seed s+1 wrapping); oracle: no panic, two runs on clones of the same queue identical, filtered outputs equal the projection (prefix under a length cap) of the unfiltered trace, stop bounds respected, time ordered. distinct_nontrivial = distinct output traces containing padding, blocking or timers", b, 1000, ctx, vec![ASSUME.into()])
 }
 
